@@ -55,6 +55,77 @@ def jobOf : CPc → Option Job
   | .ldSend j _ _ => some j
   | _ => none
 
+/-! ### the progress measure of C06 -/
+
+/-- remaining work of a client call (a job still to be sent weighs 6 + 1: the worker's six steps for it and the send) -/
+def cw : CPc → Nat
+  | .idle => 0
+  | .done _ => 0
+  | .ldStart _ _ => 12
+  | .ldUnlock _ (some _) _ => 11
+  | .ldUnlock _ none _ => 4
+  | .ldSend _ _ (some _) => 11
+  | .ldSend _ _ none => 10
+  | .fetch _ _ => 3
+  | .fetchSt _ _ _ => 2
+  | .ldRet _ => 1
+  | .g2Start _ => 5
+  | .g2Status _ => 4
+  | .wait _ => 1
+  | .retNil => 1
+  | .setStart _ _ => 2
+  | .setRet => 1
+
+/-- remaining work of a worker before it is back in its select -/
+def ww (S : Nat) : WPc → Nat
+  | .idle => 0
+  | .got _ => 5
+  | .running _ => 4
+  | .publish _ _ => 3
+  | .clearPred _ => 2
+  | .wgDone _ => 1
+  | .sweep i => (S - i) + 1
+
+/-- μ over a finite set of clients `cs` and workers `ws` -/
+def mu (cfg : Cfg) (cs ws : List Nat) (s : State) : Nat :=
+  (cs.map (fun c => cw (s.cpc c))).sum + (ws.map (fun w => ww cfg.S (s.wpc w))).sum +
+    6 * s.chan.length + (if s.tickPending then cfg.S + 2 else 0)
+
+/-- the agent performing a progress action belongs to the finite sets over which μ sums -/
+def actorIn (cs ws : List Nat) : Act → Prop
+  | .cl c => c ∈ cs
+  | .wTake w | .wTick w | .wStart w | .wEnd w _ | .wk w => w ∈ ws
+  | _ => True
+
+/-- some client / worker / loader transition is enabled -/
+def CanProgress (cfg : Cfg) (s : State) : Prop := ∃ a, a.isProgress = true ∧ (step? cfg s a).isSome
+
+/-- every call that was issued has returned -/
+def AllReturned (s : State) : Prop := ∀ c, s.cpc c = .idle ∨ ∃ o, s.cpc c = .done o
+
+/-- every future that was created is resolved (its waiters released) -/
+def AllResolved (s : State) : Prop := ∀ f, f < s.nfut → (s.fut f).done = true ∧ (s.fut f).res.isSome = true
+
+def actClient? : Act → Option Cid
+  | .invLoad c _ _ | .invGet2 c _ | .invSet c _ _ | .invFGet c _ | .cl c => some c
+  | _ => none
+
+def actWorker? : Act → Option Wid
+  | .wTake w | .wTick w | .wStart w | .wEnd w _ | .wk w => some w
+  | _ => none
+
+/-! the deadlock of the code before the fix (C06_old_deadlock): P = 1, J = 1, two shards -/
+
+def oldCfg : Cfg := { P := 1, J := 1, S := 2, En := 10, Ee := 5, shardOf := fun k => k % 2, old := true }
+def fixedCfg : Cfg := { oldCfg with old := false }
+
+/-- Load(key 0) completes and leaves its job in the (now full) queue; Load(key 1) blocks in sendJob;
+    the tick arrives and the only worker takes the tick branch, sweeps shard 0 and blocks on shard 1 -/
+def deadlockActs : List Act :=
+  [.invLoad 0 0 0, .cl 0, .cl 0, .cl 0, .cl 0,      -- c0: critical section, send, unlock, return
+   .invLoad 1 1 1, .cl 1,                            -- c1: critical section (holds lock 1), send blocked: queue full
+   .tick, .wTick 0, .wk 0]                           -- worker: tick branch, sweeps shard 0, next is shard 1
+
 /-! concrete states used by the non-vacuity examples -/
 
 def exCfg : Cfg := { P := 1, J := 1, S := 1, En := 10, Ee := 5, shardOf := fun _ => 0 }
